@@ -1,0 +1,42 @@
+//! Verification hooks (only compiled with the cargo feature `verif`).
+//!
+//! A thread-local *step budget* that turns "does not terminate" into a
+//! deterministic, replayable panic: every potentially unbounded loop of the
+//! crate calls [tick] once per iteration; when the budget installed by the
+//! verification harness via [set_budget] is exhausted, [tick] panics with the
+//! message `verif-step-budget:<site>`. Without the feature none of this
+//! exists and the crate is unchanged.
+
+use std::cell::Cell;
+
+thread_local! {
+    static BUDGET: Cell<u64> = const { Cell::new(u64::MAX) };
+    static USED: Cell<u64> = const { Cell::new(0) };
+}
+
+/// Install a fresh step budget for the current thread (and reset the
+/// counter of consumed steps).
+pub fn set_budget(steps: u64) {
+    BUDGET.with(|b| b.set(steps));
+    USED.with(|u| u.set(0));
+}
+
+/// The number of steps consumed on this thread since the last [set_budget].
+pub fn used() -> u64 {
+    USED.with(|u| u.get())
+}
+
+/// Account for one loop iteration at the named site.
+#[inline]
+pub fn tick(site: &'static str) {
+    USED.with(|u| u.set(u.get().wrapping_add(1)));
+    BUDGET.with(|b| {
+        let left = b.get();
+        if left == 0 {
+            // re-arm, so that unwinding code that ticks does not double-panic
+            b.set(u64::MAX);
+            panic!("verif-step-budget:{}", site);
+        }
+        b.set(left - 1);
+    });
+}
